@@ -2,7 +2,7 @@
    Only ExtrOcamlBasic is used (bool, option, unit, list, prod, sumbool, sumor
    mapped to OCaml's); N, positive, Z, nat stay the extracted inductive types. *)
 From Coq Require Import ExtrOcamlBasic.
-From XD Require Import Model.Base Model.Ellipsis Model.Checker Model.Parser Model.Text Model.Directive Model.RunLoop Model.Runner Model.Collect.
+From XD Require Import Model.Base Model.Ellipsis Model.Checker Model.Parser Model.Text Model.Directive Model.RunLoop Model.Runner Model.Collect Model.FS Spec.ImportResolve.
 Extraction Language OCaml.
 Extraction "../ocaml/xdmodel_core.ml"
   is_space is_linebreak is_word
@@ -19,4 +19,5 @@ Extraction "../ocaml/xdmodel_core.ml"
   rs_init rs_update rs_get rs_skips flags_of set_report_style DEFAULT_RUNTIME_STATE
   has_any_code part_want part_check run anything_ran failed_line_offset failed_lineno init_state
   gather listed run_examples exit_status native_verdict pytest_verdict verdict_of_summary
-  style_examples contain collect_module google_examples freeform_examples auto_examples.
+  style_examples contain collect_module google_examples freeform_examples auto_examples
+  fs_of_list modname_to_modpath syspath_modname_to_modpath modpath_to_modname split_modpath normalize_modpath resolve_roots.
